@@ -3,7 +3,8 @@
 (* Bounded instance for C18 (no hidden state, also across threads): three  *)
 (* independent sessions                                                    *)
 (*     A: sender sA / receiver rA                                          *)
-(*     B: same parameters as A but ANOTHER RNG script (sB / rB)            *)
+(*     B: ANOTHER recipient key pair and ANOTHER RNG script, everything    *)
+(*        else (info, PSK, sender identity key) as in A (sB / rB)          *)
 (*     C: same parameters and the SAME RNG script as A (sC)                *)
 (* whose calls TLC interleaves in every order, each call placed on one of  *)
 (* T threads.  The specification has no notion of thread or of "other      *)
@@ -22,21 +23,22 @@ TheSuite == <<KemC, KdfC, AeadC>>
 Ikm(name) == Leaf("ikm" \o name, Nsk(KemC))
 KP(name)  == DeriveKeyPair(KemC, Ikm(name))
 Prologue ==
-    [n \in {"R", "S"} |->
+    [n \in {"R", "R2", "S"} |->
         [op |-> "derive_keypair", c |-> "", form |-> "", plain |-> [kem |-> KemC],
          bytes |-> [ikm |-> Ikm(n)], kind |-> "ok", err |-> "",
          out |-> [sk |-> KP(n).sk, pk |-> KP(n).pk], outn |-> EmptyF,
          pre |-> NoState, post |-> NoState, untouched |-> FALSE]]
 
 SP(rngName) ==
-    [suite |-> TheSuite, mode |-> ModeC, pkR |-> KP("R").pk, info |-> Leaf("info", 9),
+    [suite |-> TheSuite, mode |-> ModeC, pkR |-> KP(IF rngName = "2" THEN "R2" ELSE "R").pk, info |-> Leaf("info", 9),
      psk |-> IF ModeC \in PskModes THEN Leaf("psk", 32) ELSE <<>>,
      pskId |-> IF ModeC \in PskModes THEN Leaf("pskid", 5) ELSE <<>>,
      skS |-> IF ModeC \in AuthModes THEN KP("S").sk ELSE <<>>,
      pkS |-> IF ModeC \in AuthModes THEN KP("S").pk ELSE <<>>,
      rng |-> Leaf("rng" \o rngName, Nsk(KemC))]
 RP(sp) ==
-    [suite |-> sp.suite, mode |-> sp.mode, skR |-> KP("R").sk, enc |-> GenKeyPair(KemC, sp.rng).pk,
+    [suite |-> sp.suite, mode |-> sp.mode, skR |-> KP(IF sp.pkR = KP("R2").pk THEN "R2" ELSE "R").sk,
+     enc |-> GenKeyPair(KemC, sp.rng).pk,
      info |-> sp.info, psk |-> sp.psk, pskId |-> sp.pskId, pkS |-> sp.pkS]
 
 MC_SetupSMenu(cx) ==
